@@ -143,7 +143,8 @@ Theorem C07_durations_nonneg E p s :
   mono (e_clk E) ->
   Forall (fun x => (0 <= s_wall x)%Z) (sers_in (r_emitted (exec E p s))).
 Proof.
-  intros M. unfold execute_traced. destruct (f_inst_in_try gen_facts).
+  intros M. unfold execute_traced. destruct (f_prestart gen_facts && any_opaque gen_facts p); [constructor|].
+  destruct (f_inst_in_try gen_facts).
   - rewrite protected_sers. simpl. unfold body.
     destruct (first_unconstructible 0 (nodes_of p)) as [[j e]|]; simpl; [constructor|]. apply loop_wall; exact M.
   - destruct (first_unconstructible 0 (nodes_of p)) as [[j e]|]; simpl; [constructor|].
@@ -154,7 +155,8 @@ Theorem C07_stamps_monotone E p s :
   mono (e_clk E) -> iso_now_utc = true ->
   StronglySorted Z.le (ser_stamps D (sers_in (r_emitted (exec E p s)))).
 Proof.
-  intros M U. unfold execute_traced. destruct (f_inst_in_try gen_facts).
+  intros M U. unfold execute_traced. destruct (f_prestart gen_facts && any_opaque gen_facts p); [constructor|].
+  destruct (f_inst_in_try gen_facts).
   - rewrite protected_sers. simpl. unfold body.
     destruct (first_unconstructible 0 (nodes_of p)) as [[j e]|]; simpl; [constructor|].
     apply (loop_stamps B D sd sc H gen_facts E _ M U).
@@ -177,10 +179,19 @@ Proof. vm_compute. reflexivity. Qed.
 Example ex_actual : actual (mkNode (lib_mul true) [] None) [("factor", VNum 10)] "factor" = Some (VNum 10, ChContext).
 Proof. reflexivity. Qed.
 Example ex_reported_when_repaired :
-  report_lookup "factor" (report (mkFacts true true true true true true true true true true) (mkNode (lib_mul true) [] None) [("factor", VNum 10)])
+  report_lookup "factor" (report (mkFacts true true true true true true true true true true false) (mkNode (lib_mul true) [] None) [("factor", VNum 10)])
   = Some (VNum 10, ChContext).
 Proof. reflexivity. Qed.
 
+(* the defects found by this check are repaired on the current tree (fix commits): hard obligations *)
+Lemma now_default_params_reported : default_params_reported = true.
+Proof. reflexivity. Qed.
+Lemma now_timestamps_use_utc : timestamps_use_utc = true.
+Proof. reflexivity. Qed.
+Lemma now_iso_now_utc : iso_now_utc = true.
+Proof. reflexivity. Qed.
+Lemma now_driver_now_utc : driver_now_utc = true.
+Proof. reflexivity. Qed.
 Print Assumptions C07_ser_describes_its_node.
 Print Assumptions C07_delta_exact.
 Print Assumptions C07_checks_iff.
